@@ -14,6 +14,7 @@
 //! by a fresh `TSigVerifier` unless the reference accepts it too. No panic on either side.
 
 mod clientpath;
+mod second;
 mod shapes;
 
 use std::collections::HashMap;
@@ -42,10 +43,83 @@ struct Var {
     udp: bool,
     /// the zone holds 10 more TXT RRs of 200 bytes (an AXFR reply over UDP is truncated)
     big_zone: bool,
+    // ---- knobs of the handler (audit round): everything `SqliteZoneHandler::new`,
+    // `InMemoryZoneHandler::empty`, `set_tsig_signers` / `TSigner::new` take
+    /// AXFR policy of the in-memory handler INSIDE the sqlite handler: 0 = AllowAll (what
+    /// `try_from_config` builds), 1 = Deny, 2 = AllowSigned
+    inner_axfr: u8,
+    /// `allow_update = false`
+    updates_off: bool,
+    /// zone type Secondary instead of Primary
+    secondary: bool,
+    /// a journal is attached (in-memory SQLite) and the zone persisted into it
+    journal: bool,
+    /// fudge the SERVER's signers are configured with: 0 = 300, 1 = 0, 2 = 65535
+    server_fudge: u8,
+    /// length of the shared secret k1: 0 = 32 octets, 1 = 1, 2 = 64 (the SHA-256 block size),
+    /// 3 = 65, 4 = 200 (longer than every block size: HMAC hashes the key first)
+    key_len: u8,
+}
+
+impl Var {
+    const DEFAULT: Var = Var { key_named_like_zone: false, udp: false, big_zone: false, inner_axfr: 0, updates_off: false, secondary: false, journal: false, server_fudge: 0, key_len: 0 };
+    fn label(&self) -> String {
+        let mut v = vec![if self.key_named_like_zone { "key=z." } else { "key=k1." }.to_string(), if self.udp { "udp" } else { "tcp" }.to_string()];
+        if self.big_zone {
+            v.push("big-zone".into());
+        }
+        if self.inner_axfr != 0 {
+            v.push(format!("inner-axfr={}", ["AllowAll", "Deny", "AllowSigned"][self.inner_axfr as usize]));
+        }
+        if self.updates_off {
+            v.push("allow_update=false".into());
+        }
+        if self.secondary {
+            v.push("zone-type=Secondary".into());
+        }
+        if self.journal {
+            v.push("journal".into());
+        }
+        if self.server_fudge != 0 {
+            v.push(format!("server-fudge={}", server_fudge_of(*self)));
+        }
+        if self.key_len != 0 {
+            v.push(format!("key-length={}", key1_of(*self).len()));
+        }
+        v.join("/")
+    }
+    fn to_json(&self) -> Value {
+        json!({"key_named_like_zone": self.key_named_like_zone, "over_udp": self.udp, "big_zone": self.big_zone, "inner_axfr": self.inner_axfr, "updates_off": self.updates_off,
+               "secondary": self.secondary, "journal": self.journal, "server_fudge": self.server_fudge, "key_len": self.key_len})
+    }
+    fn from_json(v: &Value) -> Var {
+        let b = |k: &str| v[k].as_bool().unwrap_or(false);
+        let n = |k: &str| v[k].as_u64().unwrap_or(0) as u8;
+        Var { key_named_like_zone: b("key_named_like_zone"), udp: b("over_udp"), big_zone: b("big_zone"), inner_axfr: n("inner_axfr"), updates_off: b("updates_off"), secondary: b("secondary"), journal: b("journal"), server_fudge: n("server_fudge"), key_len: n("key_len") }
+    }
+}
+
+fn server_fudge_of(v: Var) -> u16 {
+    [300u16, 0, 65535][v.server_fudge as usize]
+}
+
+fn key1_of(v: Var) -> Vec<u8> {
+    match v.key_len {
+        0 => vupd::KEY1.to_vec(),
+        1 => b"k".to_vec(),
+        2 => vec![0x5a; 64],
+        3 => vec![0x5a; 65],
+        _ => (0..200u8).collect(),
+    }
+}
+
+/// The shared secret of k1 under the current variant.
+fn key1() -> Vec<u8> {
+    key1_of(var())
 }
 
 thread_local! {
-    static VAR: std::cell::Cell<Var> = const { std::cell::Cell::new(Var { key_named_like_zone: false, udp: false, big_zone: false }) };
+    static VAR: std::cell::Cell<Var> = const { std::cell::Cell::new(Var::DEFAULT) };
 }
 
 fn var() -> Var {
@@ -137,14 +211,19 @@ fn base_zone() -> Vec<vupd::Rr> {
     vec![soa("z.", 60, 5, 1), ns("z.", 60, "n1.o."), a("a.z.", 60, 1)]
 }
 
+/// The UPDATE of an update kind in the reference vocabulary.
+fn kind_msg(kind: Kind) -> Option<Msg> {
+    match kind {
+        Kind::UpdAdd => Some(Msg { prereqs: vec![], updates: vec![a("b.z.", 60, 1)] }),
+        Kind::UpdDelName => Some(Msg { prereqs: vec![], updates: vec![empty("a.z.", ru::T_ANY, ru::CLASS_ANY, 0)] }),
+        Kind::UpdPrereq => Some(Msg { prereqs: vec![empty("a.z.", ru::T_A, ru::CLASS_ANY, 0), empty("b.z.", ru::T_ANY, ru::CLASS_NONE, 0)], updates: vec![txt("b.z.", 60, "t")] }),
+        _ => None,
+    }
+}
+
 fn unsigned_message(kind: Kind) -> Message {
     match kind {
-        Kind::UpdAdd => vupd::update_message(0x1234, &Msg { prereqs: vec![], updates: vec![a("b.z.", 60, 1)] }),
-        Kind::UpdDelName => vupd::update_message(0x1234, &Msg { prereqs: vec![], updates: vec![empty("a.z.", ru::T_ANY, ru::CLASS_ANY, 0)] }),
-        Kind::UpdPrereq => vupd::update_message(
-            0x1234,
-            &Msg { prereqs: vec![empty("a.z.", ru::T_A, ru::CLASS_ANY, 0), empty("b.z.", ru::T_ANY, ru::CLASS_NONE, 0)], updates: vec![txt("b.z.", 60, "t")] },
-        ),
+        Kind::UpdAdd | Kind::UpdDelName | Kind::UpdPrereq => vupd::update_message(0x1234, &kind_msg(kind).unwrap()),
         Kind::Axfr => vupd::query_message(0x1234, "z.", RecordType::AXFR),
         Kind::QuerySoa => vupd::query_message(0x1234, "z.", RecordType::SOA),
         Kind::Notify => {
@@ -157,14 +236,14 @@ fn unsigned_message(kind: Kind) -> Message {
 
 /// The honest request: signed by the real client-side signer with key k1.
 fn honest(kind: Kind, alg: Alg, fudge: u16, time: u64) -> Vec<u8> {
-    let signer = vupd::signer(k1_name(), vupd::KEY1, alg_h(alg), fudge);
+    let signer = vupd::signer(k1_name(), &key1(), alg_h(alg), fudge);
     let mut m = unsigned_message(kind);
     m.finalize(&signer, time).expect("client-side signing");
     m.to_vec().expect("encode")
 }
 
 fn client_verifier(kind: Kind, alg: Alg, fudge: u16, time: u64) -> hickory_proto::rr::TSigVerifier {
-    let signer = vupd::signer(k1_name(), vupd::KEY1, alg_h(alg), fudge);
+    let signer = vupd::signer(k1_name(), &key1(), alg_h(alg), fudge);
     let m = unsigned_message(kind);
     signer.sign_message(&m, time).expect("sign").1.expect("verifier")
 }
@@ -192,7 +271,7 @@ fn other_alg(a: Alg) -> Alg {
 }
 
 fn ref_keys(ks: usize, alg: Alg) -> Vec<Key> {
-    let k1 = Key::new(k1_name(), alg, vupd::KEY1);
+    let k1 = Key::new(k1_name(), alg, &key1());
     let k2 = Key::new("k2.", Alg::Sha256, vupd::KEY2);
     // the same NAME configured a second time with another algorithm and another secret
     let k1b = Key::new(k1_name(), other_alg(alg), vupd::KEY2);
@@ -201,7 +280,7 @@ fn ref_keys(ks: usize, alg: Alg) -> Vec<Key> {
         1 => vec![k1, k2],
         2 => vec![k2],
         3 => vec![],
-        4 => vec![Key::new(k1_name(), other_alg(alg), vupd::KEY1)],
+        4 => vec![Key::new(k1_name(), other_alg(alg), &key1())],
         6 => vec![k1b, k1],
         _ => vec![k1, k1b],
     }
@@ -215,7 +294,7 @@ fn server_signers(ks: usize, alg: Alg) -> Vec<TSigner> {
             if ks == 5 {
                 name = name.to_uppercase();
             }
-            vupd::signer(&name, &k.secret, alg_h(k.alg), 300)
+            vupd::signer(&name, &k.secret, alg_h(k.alg), server_fudge_of(var()))
         })
         .collect()
 }
@@ -376,6 +455,19 @@ fn structural_mutants(h: &[u8], alg: Alg, fudge: u16, time: u64, out: &mut Vec<M
     edit("other-data-added", &|t| t.other = vec![0, 0, 0x65, 0x53, 0xf1, 0x00]);
     edit("rr-ttl=1", &|t| t.ttl = 1);
     edit("rr-class=IN", &|t| t.class = 1);
+    // the RFC 8945 names of the truncated-MAC variants, with a MAC cut to that length
+    edit("algorithm=hmac-sha256-128+mac-cut-to-16", &|t| {
+        t.alg_name = rt::labels_of("hmac-sha256-128.");
+        t.mac.truncate(16);
+    });
+    edit("algorithm=hmac-sha384-192+mac-cut-to-24", &|t| {
+        t.alg_name = rt::labels_of("hmac-sha384-192.");
+        t.mac.truncate(24);
+    });
+    edit("algorithm=hmac-sha512-256+mac-cut-to-32", &|t| {
+        t.alg_name = rt::labels_of("hmac-sha512-256.");
+        t.mac.truncate(32);
+    });
     // placement
     {
         // a record after the TSIG
@@ -402,9 +494,25 @@ fn structural_mutants(h: &[u8], alg: Alg, fudge: u16, time: u64, out: &mut Vec<M
         // no TSIG at all
         out.push(Mutant { class: "unsigned:tsig-stripped".into(), bytes: unsigned.clone() });
     }
+    // SIG(0) (RFC 2931) instead of / next to the TSIG: only a TSIG authorises (hickory dropped SIG(0))
+    {
+        let sig0 = sig0_record_wire();
+        let bump = |b: &mut Vec<u8>| {
+            let ar = u16::from_be_bytes([b[10], b[11]]).wrapping_add(1);
+            b[10..12].copy_from_slice(&ar.to_be_bytes());
+        };
+        let mut b = unsigned.clone();
+        b.extend_from_slice(&sig0);
+        bump(&mut b);
+        out.push(Mutant { class: "unsigned:tsig-replaced-by-sig0".into(), bytes: b });
+        let mut b = h.to_vec();
+        b.extend_from_slice(&sig0);
+        bump(&mut b);
+        out.push(Mutant { class: "tsig-placement:sig0-after-tsig".into(), bytes: b });
+    }
     // MAC recomputed
     let k1n = rt::labels_of(k1_name());
-    let k1 = Key::new(k1_name(), alg, vupd::KEY1);
+    let k1 = Key::new(k1_name(), alg, &key1());
     let k2 = Key::new("k2.", Alg::Sha256, vupd::KEY2);
     // the TSIG owner name with its compression toggled (pointer to the question name <-> spelled out)
     if k1n == s.walk.questions.first().map(|q| wire::lower(&q.name)).unwrap_or_default() {
@@ -427,6 +535,36 @@ fn structural_mutants(h: &[u8], alg: Alg, fudge: u16, time: u64, out: &mut Vec<M
     out.push(Mutant { class: "resigned:by-k1-with-response-style-mac-chaining".into(), bytes: rt::sign(&unsigned, &k1, &k1n, time, fudge, Some(&t0.mac)) });
     out.push(Mutant { class: "resigned:by-k1-reference-signer(valid)".into(), bytes: rt::sign(&unsigned, &k1, &k1n, time, fudge, None) });
     out.push(Mutant { class: "resigned:by-k1-key-name-upper-case(valid)".into(), bytes: rt::sign(&unsigned, &k1, &k1n.iter().map(|l| l.to_ascii_uppercase()).collect(), time, fudge, None) });
+    // other records in the additional section BEFORE the TSIG, covered by a recomputed MAC (valid)
+    for (what, extra) in [("a-record", a_record_wire("n1.o.")), ("opt", vec![0, 0, 41, 0x04, 0xd0, 0, 0, 0, 0, 0, 0]), ("sig0", sig0_record_wire())] {
+        let mut b = unsigned.clone();
+        b.extend_from_slice(&extra);
+        let ar = u16::from_be_bytes([b[10], b[11]]).wrapping_add(1);
+        b[10..12].copy_from_slice(&ar.to_be_bytes());
+        out.push(Mutant { class: format!("resigned:by-k1-with-{what}-before-the-tsig(valid)"), bytes: rt::sign(&b, &k1, &k1n, time, fudge, None) });
+    }
+}
+
+/// A SIG(0) record (RFC 2931): owner root, TYPE SIG (24), CLASS ANY, TTL 0, type covered 0,
+/// algorithm 13, signer k1., an arbitrary 64-octet signature.
+fn sig0_record_wire() -> Vec<u8> {
+    let mut rd = vec![];
+    rd.extend_from_slice(&0u16.to_be_bytes()); // type covered
+    rd.push(13); // algorithm
+    rd.push(0); // labels
+    rd.extend_from_slice(&0u32.to_be_bytes()); // original TTL
+    rd.extend_from_slice(&((T0 + 300) as u32).to_be_bytes()); // expiration
+    rd.extend_from_slice(&((T0 - 300) as u32).to_be_bytes()); // inception
+    rd.extend_from_slice(&0x1234u16.to_be_bytes()); // key tag
+    wire::emit_name(&rt::labels_of("k1."), &mut rd);
+    rd.extend_from_slice(&[0x42; 64]);
+    let mut v = vec![0u8];
+    v.extend_from_slice(&24u16.to_be_bytes());
+    v.extend_from_slice(&255u16.to_be_bytes());
+    v.extend_from_slice(&0u32.to_be_bytes());
+    v.extend_from_slice(&(rd.len() as u16).to_be_bytes());
+    v.extend_from_slice(&rd);
+    v
 }
 
 // ------------------------------------------------------------------------------------------
@@ -461,7 +599,14 @@ impl Worker {
                     zone.push(txt(&format!("r{i}.z."), 60, &"x".repeat(200)));
                 }
             }
-            let env = self.rt.block_on(Env::new(&zone, EnvOpts { signers: server_signers(ks, alg), axfr: policy_of(policy), allow_update: true, journal: false }));
+            let env = self.rt.block_on(Env::new(&zone, EnvOpts {
+                signers: server_signers(ks, alg),
+                axfr: policy_of(policy),
+                allow_update: !var().updates_off,
+                journal: var().journal,
+                zone_type: if var().secondary { hickory_server::zone_handler::ZoneType::Secondary } else { hickory_server::zone_handler::ZoneType::Primary },
+                inner_axfr: [AxfrPolicy::AllowAll, AxfrPolicy::Deny, AxfrPolicy::AllowSigned][var().inner_axfr as usize],
+            }));
             let saved = self.rt.block_on(env.save());
             let snap = self.rt.block_on(env.snapshot());
             self.envs.insert((ks, alg, policy, var()), (env, saved, snap));
@@ -537,7 +682,7 @@ impl Case {
             "now_minus_time_signed": self.now as i128 - self.time as i128,
             "keyset": KEYSETS[self.ks], "keyset_index": self.ks, "axfr_policy": POLICY_NAMES[self.policy as usize], "policy_index": self.policy,
             "mutation": self.class, "request_hex": hex::enc(&self.bytes),
-            "key_named_like_zone": self.var.key_named_like_zone, "over_udp": self.var.udp, "big_zone": self.var.big_zone,
+            "variant": self.var.to_json(), "variant_label": self.var.label(),
         })
     }
     fn from_json(v: &Value) -> Case {
@@ -551,7 +696,7 @@ impl Case {
             policy: v["policy_index"].as_u64().unwrap_or(2) as u8,
             class: v["mutation"].as_str().unwrap_or("").to_string(),
             bytes: hex::dec(v["request_hex"].as_str().unwrap_or("")).unwrap_or_default(),
-            var: Var { key_named_like_zone: v["key_named_like_zone"].as_bool().unwrap_or(false), udp: v["over_udp"].as_bool().unwrap_or(false), big_zone: v["big_zone"].as_bool().unwrap_or(false) },
+            var: if v["variant"].is_object() { Var::from_json(&v["variant"]) } else { Var::from_json(v) },
         }
     }
 }
@@ -659,6 +804,11 @@ fn run_case(w: &mut Worker, c: &Case, l: &mut Local) -> Option<(Vec<u8>, Vec<u8>
         };
         l.violation(&key, &format!("the zone changed although the request does not carry a valid, timely TSIG of a configured key ({scene}); {}", why()), || c.json());
     }
+    // knobs: a zone that does not take updates at all
+    if obs.changed && (c.var.updates_off || c.var.secondary) {
+        let which = if c.var.updates_off { "updates-are-disabled(allow_update=false)" } else { "the-zone-is-secondary" };
+        l.violation(&format!("update-took-effect-although-{which}"), &format!("the zone changed although {which} ({scene}); {}", why()), || c.json());
+    }
     // E2: zone data in the reply
     if answers > 0 {
         if is_axfr {
@@ -701,7 +851,10 @@ fn run_case(w: &mut Worker, c: &Case, l: &mut Local) -> Option<(Vec<u8>, Vec<u8>
         let req_mac = rt::split(&c.bytes).map(|s| s.tsig.mac).unwrap_or_default();
         let key = &keys[verdict.clone().unwrap()];
         let truncated = wire::read_header(&reply).map(|h| h.tc()).unwrap_or(false);
-        let tscene = if truncated { ":truncated-reply" } else { "" };
+        // a request with an OPT raises the UDP limit: the truncated reply then has room for the OPT
+        // but not for the TSIG (keyed apart from truncation at 512 octets)
+        let edns_request = wire::walk(&c.bytes).map(|w| w.additionals.iter().any(|r| r.rtype == 41)).unwrap_or(false);
+        let tscene = if truncated && edns_request { ":truncated-reply:edns-request" } else if truncated { ":truncated-reply" } else { "" };
         if truncated {
             l.outcome("accepted:reply-truncated");
         }
@@ -719,8 +872,8 @@ fn run_case(w: &mut Worker, c: &Case, l: &mut Local) -> Option<(Vec<u8>, Vec<u8>
         }
         // the honest client's verifier (it knows the honest request's MAC and time)
         let honest_mac = rt::split(&honest(c.kind, c.alg, c.fudge, c.time)).map(|s| s.tsig.mac).unwrap_or_default();
-        if honest_mac == req_mac && key.name == rt::labels_of(k1_name()) && (c.now as i128 - c.time as i128).abs() > 300 {
-            // the server signs its reply with its own configured fudge (300): a client whose clock
+        if honest_mac == req_mac && key.name == rt::labels_of(k1_name()) && (c.now as i128 - c.time as i128).abs() > server_fudge_of(c.var) as i128 {
+            // the server signs its reply with its own configured fudge: a client whose clock
             // is further away cannot accept it whatever the server does (not judged)
             l.outcome("obs:accepted-with-client-clock-beyond-the-server-fudge");
         } else if honest_mac == req_mac && key.name == rt::labels_of(k1_name()) {
@@ -728,7 +881,7 @@ fn run_case(w: &mut Worker, c: &Case, l: &mut Local) -> Option<(Vec<u8>, Vec<u8>
             match catch(|| v.verify(&reply)) {
                 Err(p) => l.violation(&panic_key("client", &p.msg, &p.loc), &format!("the client-side verifier panicked on the server's reply: {}", p.msg), || c.json()),
                 Ok(Ok(_)) => l.outcome("accepted:reply-verifies-with-client-verifier"),
-                Ok(Err(e)) => l.violation(&format!("accepted-reply-rejected-by-client-verifier:{}", if truncated { "truncated-reply" } else if c.now as i128 == c.time as i128 - c.fudge as i128 { "server-clock=time-signed-minus-fudge" } else { "elsewhere-in-window" }), &format!("the client-side TSigVerifier rejects the server's reply to an accepted request: {e} ({scene}; now - time signed = {})", c.now as i128 - c.time as i128), || {
+                Ok(Err(e)) => l.violation(&format!("accepted-reply-rejected-by-client-verifier:{}", if truncated { "truncated-reply" } else if c.time as i128 == c.now as i128 + server_fudge_of(c.var) as i128 { "server-clock=time-signed-minus-fudge" } else { "elsewhere-in-window" }), &format!("the client-side TSigVerifier rejects the server's reply to an accepted request: {e} ({scene}; now - time signed = {})", c.now as i128 - c.time as i128), || {
                     let mut j = c.json();
                     j["reply_hex"] = json!(hex::enc(&reply));
                     j
@@ -846,7 +999,7 @@ fn apply_recipe(r: &Recipe, reply: &[u8], request: &[u8], reg: &Regions) -> Opti
 /// Reply side, direct family: every tampered reply to an honest, accepted exchange is fed to a
 /// fresh client-side `TSigVerifier`.
 fn run_reply_mutants(c: &Case, reply: &[u8], req_mac: &[u8], l: &mut Local) {
-    let key = Key::new(k1_name(), c.alg, vupd::KEY1);
+    let key = Key::new(k1_name(), c.alg, &key1());
     let reg = Regions::of(reply);
     for r in recipes(reply.len()) {
         let Some((class, bytes)) = apply_recipe(&r, reply, &c.bytes, &reg) else { continue };
@@ -1061,6 +1214,10 @@ fn main() {
             ctx.with_local(|l| run_client_path(&mut w, kind, alg, fudge, path, sh.as_ref(), l));
             ctx.finish(false);
         }
+        if case["second_step"].as_bool() == Some(true) {
+            ctx.with_local(|l| second::replay(&mut w, &case, l));
+            ctx.finish(false);
+        }
         if case["shape_family"].is_string() {
             let (kind, alg, sh) = (Kind::from_name(case["kind"].as_str().unwrap_or("")), alg_from(case["alg"].as_str().unwrap_or("")), shapes::shape_from_json(&case));
             ctx.with_local(|l| shapes::run_shape(&mut w, kind, alg, &sh, l));
@@ -1124,7 +1281,18 @@ fn main() {
          AXFR answers under AllowSigned) only if vref::tsig accepts the mutated bytes under the \
          configured keys at that clock; no AXFR data under Deny; accepted => reply verifies with the reference and with the client verifier; \
          modified reply accepted by the client only if the reference accepts it; no panic. Non-trivial = distinct (bytes, key set, clock) that \
-         still parse as a message with a correctly placed trailing TSIG.",
+         still parse as a message with a correctly placed trailing TSIG. Audit round: structural mutants SIG(0) instead of / after / before the \
+         TSIG, the RFC 8945 truncated-MAC algorithm names with a MAC cut to that length, an A record / OPT / SIG(0) in the additional section \
+         before the TSIG with the MAC recomputed (valid); Part F also over the unsigned request HAND-ENCODED in 6 layouts (vupd::raw); Part G \
+         (knobs, identity + structural mutants x 8 key sets x window offsets x all 3 outer AXFR policies): AXFR policy of the in-memory handler \
+         inside {Deny, AllowSigned}, allow_update = false, zone type Secondary (the zone must not change whatever the TSIG), a journal \
+         attached, server signers configured with fudge {0, 65535}, shared secret of {1, 64, 65, 200} octets, and two combinations; Part H \
+         (second step, on ONE handler, x {plain, journal, UDP, key named like the zone}): every honest request after every kind of first \
+         request (unsigned, bad MAC, unknown key, BADTIME, valid TSIG + prescan FORMERR, valid TSIG + failing prerequisite, cut short, \
+         accepted update, accepted AXFR, signed NOTIFY / query, the same octets = replay, replay after the window, every honest kind) and after \
+         every ordered PAIR of honest requests: reply octets and zone equal those of a fresh handler in the same zone state, accepted update \
+         = RFC 2136 on the state the first left, signed AXFR lists exactly the current zone; the first request's TSIG on another body must \
+         not take effect.",
     );
     ctx.assume("ring's HMAC is correct; vref::tsig (RFC 8945 4.3.3 digest from the raw bytes) is the reference for 'carries a valid, timely TSIG'");
     ctx.assume("the handler keeps no state besides the record store: the store content is put back after a request that changed it");
@@ -1147,11 +1315,25 @@ fn main() {
     }
     // part E: variant dimensions (identity + structural mutants; SHA-256, fudge 300)
     let variants: Vec<Var> = vec![
-        Var { key_named_like_zone: true, udp: false, big_zone: false },
-        Var { key_named_like_zone: false, udp: true, big_zone: false },
-        Var { key_named_like_zone: false, udp: true, big_zone: true },
-        Var { key_named_like_zone: false, udp: false, big_zone: true },
-        Var { key_named_like_zone: true, udp: true, big_zone: true },
+        Var { key_named_like_zone: true, ..Var::DEFAULT },
+        Var { udp: true, ..Var::DEFAULT },
+        Var { udp: true, big_zone: true, ..Var::DEFAULT },
+        Var { big_zone: true, ..Var::DEFAULT },
+        Var { key_named_like_zone: true, udp: true, big_zone: true, ..Var::DEFAULT },
+        // part G (audit round): every knob of the handler / the signers at a non-default value
+        Var { inner_axfr: 1, ..Var::DEFAULT },
+        Var { inner_axfr: 2, ..Var::DEFAULT },
+        Var { updates_off: true, ..Var::DEFAULT },
+        Var { secondary: true, ..Var::DEFAULT },
+        Var { journal: true, ..Var::DEFAULT },
+        Var { server_fudge: 1, ..Var::DEFAULT },
+        Var { server_fudge: 2, ..Var::DEFAULT },
+        Var { key_len: 1, ..Var::DEFAULT },
+        Var { key_len: 2, ..Var::DEFAULT },
+        Var { key_len: 3, ..Var::DEFAULT },
+        Var { key_len: 4, ..Var::DEFAULT },
+        Var { updates_off: true, journal: true, udp: true, ..Var::DEFAULT },
+        Var { secondary: true, inner_axfr: 2, key_len: 4, server_fudge: 1, ..Var::DEFAULT },
     ];
     let e_kinds = [Kind::UpdAdd, Kind::UpdDelName, Kind::UpdPrereq, Kind::Axfr, Kind::Notify, Kind::QuerySoa];
     let n_ab = tasks.len();
@@ -1183,7 +1365,8 @@ fn main() {
                 if !kind.judged() {
                     byte_mutants(&h, &mut ms);
                 }
-                let policies: Vec<u8> = if kind == Kind::Axfr { vec![0, 2] } else { vec![2] };
+                let knob = v.inner_axfr != 0 || v.updates_off || v.secondary || v.journal || v.server_fudge != 0 || v.key_len != 0;
+                let policies: Vec<u8> = if kind == Kind::Axfr { if knob { vec![0, 1, 2] } else { vec![0, 2] } } else { vec![2] };
                 for m in &ms {
                     let byte_level = m.class.contains('@') || m.class.starts_with("extend");
                     let keysets: Vec<usize> = if byte_level { vec![0] } else { (0..KEYSETS.len()).collect() };
@@ -1193,7 +1376,7 @@ fn main() {
                             for o in &offs {
                                 let now = (T0 as i128 + o) as u64;
                                 let c = Case { kind, alg: Alg::Sha256, fudge: 300, time: T0, now, ks, policy: p, class: m.class.clone(), bytes: m.bytes.clone(), var: v };
-                                l.outcome(&format!("variant:{}{}{}", if v.key_named_like_zone { "key=z." } else { "key=k1." }, if v.udp { "/udp" } else { "/tcp" }, if v.big_zone { "/big-zone" } else { "" }));
+                                l.outcome(&format!("variant:{}", v.label()));
                                 run_case(w, &c, l);
                             }
                         }
@@ -1299,7 +1482,16 @@ fn main() {
     let mut f_tasks: Vec<(Kind, Alg, shapes::Shape)> = vec![];
     for k in &f_kinds {
         for sh in &f_shapes {
+            if sh.layout != 0 && !k.is_update() {
+                continue;
+            }
             f_tasks.push((*k, Alg::Sha256, sh.clone()));
+        }
+    }
+    if !thorough {
+        // quick: the hand-encoded layouts also for the request with prerequisites (three sections)
+        for sh in f_shapes.iter().filter(|s| s.layout != 0) {
+            f_tasks.push((Kind::UpdPrereq, Alg::Sha256, sh.clone()));
         }
     }
     // the algorithm sub-grid with the BADTIME shape
@@ -1331,7 +1523,20 @@ fn main() {
         run_client_path(w, *kind, Alg::Sha256, 300, p, Some(sh), l);
     });
 
+    // ---- part H: the second step (state carried between requests)
+    let h_vars = [Var::DEFAULT, Var { journal: true, ..Var::DEFAULT }, Var { udp: true, ..Var::DEFAULT }, Var { key_named_like_zone: true, ..Var::DEFAULT }];
+    ctx.par_run_init(h_vars.len() as u64, 1, |_| Worker::new(), |i, l, w| {
+        set_var(h_vars[i as usize]);
+        second::run(w, l);
+        set_var(Var::DEFAULT);
+    });
+
     for class in [
+        "second-step:same-as-fresh-handler",
+        "second-step:second-rejected:no-effect",
+        "second-step:update-applied-on-top-of-the-first",
+        "second-step:update-left-the-zone-as-the-first-left-it",
+        "second-step:axfr-lists-the-zone-the-first-left",
         "shape:request-digest-equals-rfc8945",
         "shape:response-digest-equals-rfc8945",
         "shape:reference-signed-request-verifies",
@@ -1341,6 +1546,12 @@ fn main() {
         "shape:second-envelope-mutant:accepted-by-both",
         "variant:key=z./tcp",
         "variant:key=k1./udp/big-zone",
+        "variant:key=k1./tcp/inner-axfr=Deny",
+        "variant:key=k1./tcp/allow_update=false",
+        "variant:key=k1./tcp/zone-type=Secondary",
+        "variant:key=k1./tcp/journal",
+        "variant:key=k1./tcp/server-fudge=0",
+        "variant:key=k1./tcp/key-length=200",
         "obs:notify:tsig-valid",
         "obs:query:SOA:tsig-invalid",
         "accepted:reply-truncated",
